@@ -41,6 +41,11 @@ func (ip *Interp) predefined(name string) (Value, bool) {
 
 // lookup resolves a name for reading.
 func (ip *Interp) lookup(sc *scope, name string) (Value, error) {
+	if rs := []rune(name); len(rs) > 0 && rs[0] >= '0' && rs[0] <= '9' {
+		// C04: an identifier that starts like a number but is not one is rejected, never a name
+		// (numeric spellings are Num nodes, never Name nodes)
+		return nil, ip.fault(&ZErr{Kind: "bad-id", Msg: name})
+	}
 	if v, ok := ip.predefined(name); ok {
 		return v, nil
 	}
@@ -134,6 +139,16 @@ func (ip *Interp) execBody(fd *FuncDef, parent *scope, params []Value, m *Module
 	case *Thrown:
 		exc = e.Val
 	case *ZErr:
+		if e.Kind == "format" || e.Kind == "bad-id" {
+			// whether a malformed template / identifier is an exception that 拦截异常 may take is
+			// not fixed by the statements; without a handler of that class it must propagate
+			for _, c := range fd.Catches {
+				if c.Class == "异常" {
+					panic(&Unspec{"semantic error meeting a handler of 异常"})
+				}
+			}
+			return nil, false, err
+		}
 		if e.Kind == "syntax" || e.Kind == "module-missing" || e.Kind == "lib-missing" || e.Kind == "cycle" || e.Kind == "input-missing" {
 			return nil, false, err
 		}
@@ -897,7 +912,13 @@ func (ip *Interp) evalBin(x Bin, sc *scope) (Value, error) {
 		b, okB := num(rv)
 		if x.Op == "%" {
 			if _, isS := lv.(VStr); isS {
-				if _, isL := rv.(*VList); isL {
+				if l, isL := rv.(*VList); isL {
+					// formatting is C14's subject; only two certain errors are modelled here:
+					// a '{' that is never closed, and a template made of plain text and {}
+					// placeholders whose number differs from the number of arguments
+					if bad, certain := formatCertainError(string(lv.(VStr)), len(l.Items)); certain && bad {
+						return nil, ip.fault(&ZErr{Kind: "format", Msg: "malformed template or argument count"})
+					}
 					panic(&Unspec{"text % list is formatting (C14)"})
 				}
 			}
@@ -1053,4 +1074,31 @@ func (ip *Interp) selfAdd(place Expr, c CallPart, sc *scope) (Value, error) {
 		}
 	}
 	return nv, nil
+}
+
+// formatCertainError: (isError, certain). Certain only for templates without '}' outside the exact
+// placeholder "{}": an unclosed '{' is malformed; otherwise the placeholder count must match.
+func formatCertainError(t string, nargs int) (bool, bool) {
+	rs := []rune(t)
+	n := 0
+	for i := 0; i < len(rs); i++ {
+		switch rs[i] {
+		case '{':
+			if i+1 < len(rs) && rs[i+1] == '}' {
+				n++
+				i++
+				continue
+			}
+			// anything else after '{': only certain when no '}' follows at all
+			for j := i + 1; j < len(rs); j++ {
+				if rs[j] == '}' {
+					return false, false
+				}
+			}
+			return true, true
+		case '}':
+			return false, false
+		}
+	}
+	return n != nargs, true
 }
